@@ -21,6 +21,133 @@ func init() {
 
 func c14() []*Ob {
 	return []*Ob{
+		{Prop: "C14", ID: "C14.10", Engine: "SIBLING(mirror)", Floor: 3,
+			Desc:  "a time range that lies before a token's first LIDs block still reaches the blocks behind it: the sealed posting-list iterators end their walk only on the bound ahead of them (shared rule with C03.7)",
+			Check: shared("C03.7")},
+		{Prop: "C14", ID: "C14.9", Engine: "PAIR(mask/byte)", Floor: 2,
+			Desc: "the occupancy test looks at whole minutes in between: in util.Bitmask.HasBitsIn a mask computed from a position's bit offset (position %% 8) is applied only to the byte at that position's own index (position / 8) — or to a byte whose index is known equal to it — never to the bytes of the loop in between; a middle byte ANDed with the left border's mask loses its low bits, and a fraction whose only documents of the range sit in those minutes is pruned",
+			Check: func(c *Ctx) {
+				fn := c.Fn("(*util.Bitmask).HasBitsIn")
+				if fn == nil {
+					return
+				}
+				strip := func(v ssa.Value) ssa.Value {
+					for {
+						switch x := v.(type) {
+						case *ssa.Convert:
+							v = x.X
+						case *ssa.ChangeType:
+							v = x.X
+						default:
+							return v
+						}
+					}
+				}
+				// a bit offset (p % k) or a byte index (p / k) of some position p, computed in place or by a small helper
+				// (`byteIndex, bitIndex := locateBit(p)`): returns p as seen by this function
+				locate := func(v ssa.Value) (ssa.Value, string, bool) {
+					kindOf := func(op token.Token) string {
+						switch op {
+						case token.REM:
+							return "offset"
+						case token.QUO:
+							return "index"
+						}
+						return ""
+					}
+					switch x := strip(v).(type) {
+					case *ssa.BinOp:
+						if k := kindOf(x.Op); k != "" {
+							return strip(x.X), k, true
+						}
+					case *ssa.Extract:
+						call, ok := x.Tuple.(*ssa.Call)
+						if !ok {
+							break
+						}
+						h := StaticCallee(call)
+						if h == nil || h.Blocks == nil || !c.P.InRepo(h) {
+							break
+						}
+						for _, hb := range h.Blocks {
+							ret, ok := hb.Instrs[len(hb.Instrs)-1].(*ssa.Return)
+							if !ok || x.Index >= len(ret.Results) {
+								continue
+							}
+							if bo, ok := strip(ret.Results[x.Index]).(*ssa.BinOp); ok && kindOf(bo.Op) != "" {
+								for pi, prm := range h.Params {
+									if strip(bo.X) == ssa.Value(prm) && pi < len(call.Call.Args) {
+										return strip(call.Call.Args[pi]), kindOf(bo.Op), true
+									}
+								}
+							}
+						}
+					}
+					return nil, "", false
+				}
+				maskParam := func(v ssa.Value) ssa.Value {
+					var src ssa.Value
+					DerivesFromStop(v, func(x ssa.Value) bool {
+						if p, k, ok := locate(x); ok && k == "offset" {
+							src = p
+							return true
+						}
+						return false
+					}, func(x ssa.Value) bool { _, _, ok := locate(x); return ok })
+					return src
+				}
+				n := 0
+				for _, b := range fn.Blocks {
+					for _, in := range b.Instrs {
+						bo, ok := in.(*ssa.BinOp)
+						if !ok || bo.Op != token.AND {
+							continue
+						}
+						for _, pair := range [][2]ssa.Value{{bo.X, bo.Y}, {bo.Y, bo.X}} {
+							mp := maskParam(pair[0])
+							if mp == nil || maskParam(pair[1]) == mp {
+								continue
+							}
+							// the byte on the other side
+							var idx ssa.Value
+							DerivesFrom(pair[1], func(x ssa.Value) bool {
+								if ia, ok := x.(*ssa.IndexAddr); ok && idx == nil {
+									idx = ia.Index
+									return true
+								}
+								return false
+							})
+							if idx == nil {
+								continue
+							}
+							n++
+							own := func(v ssa.Value) bool {
+								p, k, ok := locate(v)
+								return ok && k == "index" && p == mp
+							}
+							ok := own(idx)
+							if !ok {
+								// or an index known equal to the position's own
+								for _, f := range FactsAtInstr(bo) {
+									if eq, isEq := f.Cond.(*ssa.BinOp); isEq && eq.Op == token.EQL && f.Val {
+										if (own(eq.X) && SameValue(strip(eq.Y), strip(idx))) || (own(eq.Y) && SameValue(strip(eq.X), strip(idx))) {
+											ok = true
+										}
+									}
+								}
+							}
+							if ok {
+								c.Site(bo.Pos(), "a border mask is applied to its own border byte")
+							} else {
+								c.Violation("pair:HasBitsIn:mask-byte", bo.Pos(), "HasBitsIn applies the mask computed from %s %% 8 to a byte that is not the one at %s / 8: bits of other minutes are masked away and an occupied minute reads as empty", mp.Name(), mp.Name())
+							}
+						}
+					}
+				}
+				if n == 0 {
+					c.Site(fn.Pos(), "HasBitsIn applies no position-derived mask to a byte (nothing to pair)")
+				}
+			}},
 		{Prop: "C14", ID: "C14.1", Engine: "DOM", Floor: 2,
 			Desc: "unknown means 'may intersect': Info.IsIntersecting returns false only for DocsTotal == 0 or from the border test, and true under Distribution == nil; MIDsDistribution.IsIntersecting returns true under isUndefined(); UnmarshalJSON leaves the distribution untouched on a decode error",
 			Check: func(c *Ctx) {
